@@ -92,9 +92,16 @@ var OddMods = []ModPool{
 	{"back`tick", []string{"v1.0.0"}, nil},
 	{"tab\there", []string{"v1.0.0"}, nil},
 	{"=>", []string{"v1.0.0"}, nil},
+	{"nb\u00a0sp", []string{"v1.0.0"}, nil},       // non-ASCII spaces: not printable for the lexer, must stay quoted
+	{"ideo\u3000graphic", []string{"v1.0.0"}, nil},
+	{"thin\u2009narrow\u202f", []string{"v1.0.0"}, nil},
+	{"zero\u200bwidth", []string{"v1.0.0"}, nil},
+	{"bom\ufeffinside", []string{"v1.0.0"}, nil},
+	{"line\u2028sep", []string{"v1.0.0"}, nil},
+	{"soft\u00adhyphen", []string{"v1.0.0"}, nil},
 }
 
-var Dirs = []string{"./a", "../b", "/abs/dir", "./x y", ".", "..", "./a/b", "./c", "./d", "C:/dir", "./é"}
+var Dirs = []string{"./nb\u00a0sp", "./ideo\u3000x", "./a", "../b", "/abs/dir", "./x y", ".", "..", "./a/b", "./c", "./d", "C:/dir", "./é"}
 var GoVersions = []string{"1.12", "1.20", "1.21", "1.21.0", "1.22.3", "1.23rc1", "1.9", "1.24", "1.100"}
 var Toolchains = []string{"go1.21.0", "go1.22.3", "default", "go1.23rc1", "go1", "go1.21.0-custom"}
 var GodebugKeys = []string{"panicnil", "http2client", "asynctimerchan", "k1", "default"}
